@@ -14,6 +14,12 @@ import numpy as np
 import pandas as pd
 
 from vmon.compare import kind_of
+from vmon.util import derive_rng, shash
+
+import os as _os
+
+W2_PROB = float(_os.environ.get("VMON_W2_PROB", "0.0"))  # second-wave operators: enabled once vetted (DESIGN.md 10.6)
+W2_SALT = 0
 
 NUM_KINDS = "iuf"
 
@@ -890,7 +896,8 @@ Op("filter_by_other", 2, ["frame", "series"], s_filter_by_other, lambda lib, ins
 
 def s_concat(rng, ins):
     a, b = ins[0].pd, ins[1].pd
-    if p_axis1_ok(a, b) and rng.random() < 0.3:
+    # axis=1 joins on index labels: only defined when both inputs' labels are (a reset_index restarts per partition)
+    if ins[0].index and ins[1].index and p_axis1_ok(a, b) and rng.random() < 0.3:
         return {"axis": 1}
     if list(a.columns) != list(b.columns) and rng.random() < 0.5:
         return None
@@ -911,7 +918,7 @@ def a_concat(lib, ins, p):
 
 def f_concat(ins, p, res):
     if p["axis"] == 1:
-        return ins[0].order and ins[1].order, True
+        return ins[0].order and ins[1].order, ins[0].index and ins[1].index
     return False, ins[0].index and ins[1].index
 
 
@@ -1101,12 +1108,39 @@ def gen_program(rng, source_frames, nsteps=None, profile="default", exclude_tags
     vals = [Val(df, True, True, src=[i]) for i, df in enumerate(source_frames)]
     steps = []
     nsteps = nsteps or rng.choice([1, 2, 2, 3, 3, 4, 5, 6, 8])
-    names = sorted(OPS)
+    names = sorted(n for n in OPS if "w2" not in OPS[n].tags)
+    names2 = sorted(n for n in OPS if "w2" in OPS[n].tags)
     tries = 0
     while len(steps) < nsteps and tries < max_tries * nsteps:
         tries += 1
-        weights = [0.0 if (OPS[n].tags & set(exclude_tags)) else op_weight(OPS[n], profile) for n in names]
-        op = OPS[rng.choices(names, weights)[0]]
+        # second-wave operators are drawn from a separate content-derived stream: a program without any of them
+        # is generated exactly as before they existed
+        r2 = derive_rng("w2", W2_SALT, shash(steps), tries, nsteps)
+        if names2 and r2.random() < W2_PROB:
+            weights2 = [0.0 if (OPS[n].tags & set(exclude_tags)) else op_weight(OPS[n], profile) for n in names2]
+            op = OPS[r2.choices(names2, weights2)[0]] if any(weights2) else None
+        else:
+            op = None
+        main_rng = rng
+        if op is None:
+            weights = [0.0 if (OPS[n].tags & set(exclude_tags)) else op_weight(OPS[n], profile) for n in names]
+            op = OPS[rng.choices(names, weights)[0]]
+        else:
+            rng = r2  # the main stream is not consumed by a second-wave attempt
+        try:
+            st = _try_step(rng, op, vals)
+        finally:
+            rng = main_rng
+        if st is None:
+            continue
+        st, val = st
+        vals.append(val)
+        steps.append(st)
+    return steps, vals
+
+
+def _try_step(rng, op, vals):
+    if True:
         # choose inputs: bias to the most recent values, but any earlier value may be reused (shared sub-expressions)
         ids = []
         ok = True
@@ -1124,14 +1158,14 @@ def gen_program(rng, source_frames, nsteps=None, profile="default", exclude_tags
             w = [1.0 + 3.0 * (i == len(vals) - 1) + 1.0 * (i >= len(vals) - 3) for i in cands]
             ids.append(rng.choices(cands, w)[0])
         if not ok:
-            continue
+            return None
         ins = [vals[i] for i in ids]
         try:
             p = op.sample(rng, ins)
         except Exception:
             p = None
         if p is None:
-            continue
+            return None
         st = {"op": op.name, "in": ids, "p": p}
         try:
             import warnings
@@ -1140,16 +1174,17 @@ def gen_program(rng, source_frames, nsteps=None, profile="default", exclude_tags
                 warnings.simplefilter("ignore")
                 res = op.apply("pd", [v.pd for v in ins], p)
         except Exception:
-            continue
+            return None
         if isinstance(res, (pd.DataFrame,)) and (res.shape[1] == 0 or res.columns.has_duplicates):
-            continue
+            return None
         if isinstance(res, (pd.DataFrame, pd.Series)) and len(res) > 600:
-            continue
+            return None
         o, ix = step_flags(st, ins, res)
-        vals.append(Val(res, o, ix, src=set().union(*[v.src for v in ins])))
-        steps.append(st)
-    return steps, vals
+        return st, Val(res, o, ix, src=set().union(*[v.src for v in ins]))
 
 
 def len_ok(v):
     return True
+
+
+from vmon import programs_w2  # noqa: E402,F401  (registers the second-wave operators)
